@@ -128,7 +128,7 @@ class Call:
 
 _LINE = re.compile(r"^(\d+)\s+(.*)$")
 _RESUMED = re.compile(r"^<\.\.\. (\w+) resumed>(.*)$")
-_RET = re.compile(r"^(.*)\)\s+= (-?\d+|\?|0x[0-9a-f]+)(?:<((?:\\x[0-9a-fA-F]{2})*)>)?(?:\s+(E\w+).*|\s+\(.*\))?\s*$")
+_RETTAIL = re.compile(r"^(-?\d+|\?|0x[0-9a-f]+)(?:<((?:\\x[0-9a-fA-F]{2})*)>)?(?:\s+(E\w+).*|\s+\(.*\))?\s*$")
 
 
 def parse_calls(logfile):
@@ -136,17 +136,19 @@ def parse_calls(logfile):
     pending = {}
     with open(logfile, "r", errors="replace") as f:
         for lineno, raw in enumerate(f, 1):
-            m = _LINE.match(raw.rstrip("\n"))
-            if not m:
+            sp = raw.find(" ")
+            if sp <= 0 or not raw[:sp].isdigit():
                 continue
-            tid, rest = int(m.group(1)), m.group(2)
+            tid, rest = int(raw[:sp]), raw[sp:].strip()
             if rest.startswith("+++") or rest.startswith("---"):
                 continue
             if rest.endswith("<unfinished ...>"):
                 pending[tid] = rest[:-len("<unfinished ...>")].rstrip()
                 continue
-            mr = _RESUMED.match(rest)
-            if mr:
+            if rest.startswith("<... "):
+                mr = _RESUMED.match(rest)
+                if not mr:
+                    continue
                 head = pending.pop(tid, None)
                 if head is None:
                     continue
@@ -154,17 +156,26 @@ def parse_calls(logfile):
             p = rest.find("(")
             if p <= 0:
                 continue
-            name = rest[:p]
-            mm = _RET.match(rest[p + 1:])
+            # with -xx no string can contain ") = ": the last occurrence separates arguments and result
+            q = rest.rfind(") = ")
+            if q < p:
+                q2 = rest.rfind(")")
+                mt = re.match(r"^\)\s+= (.*)$", rest[q2:]) if q2 >= p else None
+                if not mt:
+                    continue
+                q, tail = q2, mt.group(1)
+            else:
+                tail = rest[q + 4:]
+            mm = _RETTAIL.match(tail)
             if not mm:
                 continue
             c = Call()
-            c.tid, c.name, c.line = tid, name, lineno
-            c.args = mm.group(1)
-            r = mm.group(2)
+            c.tid, c.name, c.line = tid, rest[:p], lineno
+            c.args = rest[p + 1:q]
+            r = mm.group(1)
             c.ret = None if r == "?" else int(r, 16) if r.startswith("0x") else int(r)
-            c.retpath = _unhex(mm.group(3)).decode("utf-8", "surrogateescape") if mm.group(3) is not None else None
-            c.err = mm.group(4)
+            c.retpath = _unhex(mm.group(2)).decode("utf-8", "surrogateescape") if mm.group(2) is not None else None
+            c.err = mm.group(3)
             yield c
 
 
